@@ -4,6 +4,7 @@ import CogentModel.Model.CastStr
 import CogentModel.Model.TableOps
 import CogentModel.Spec.TableRows
 import CogentModel.Gen.C20Args
+import CogentModel.Gen.C20Load
 open CogentModel CogentModel.TableOps
 
 /-! JSON protocol of the C20 driver.
@@ -243,10 +244,21 @@ def handle (cmd : String) (j : J) : Except String J :=
     pure (.str (String.ofList (Csv.tableWrite d (← (← j.get "title").toStr).toList hdr
       (← rowsOfJ (← j.get "rows")) (← (← j.get "legend").toStr).toList)))
   | "load_delimited" => do
-    let r := Csv.loadDelimited (← delimOfJ j) (← (← j.get "with_title").toBool)
-      (← (← j.get "with_legend").toBool) (← (← j.get "text").toStr).toList
+    -- the csv reader model, then the row logic GENERATED from the source of parse/table.py::load_delimited
+    -- (`"hand": true`: the HAND model `loadRowsH` instead — the failing-input search)
+    let hdrArg ← match j.get? "header" with
+      | some (.bool b) => pure b | none => pure Gen.C20Load.defaultHeader | _ => throw "header must be a bool"
+    let limit ← match j.get? "limit" with
+      | some .null => pure none | none => pure Gen.C20Load.defaultLimit | some v => do pure (some (← v.toInt))
+    let hand := match j.get? "hand" with | some (.bool true) => true | _ => false
+    let wt ← (← j.get "with_title").toBool
+    let wl ← (← j.get "with_legend").toBool
+    let r := (Csv.csvRead (← delimOfJ j) (← (← j.get "text").toStr).toList).bind fun recs =>
+      if hand then TableLoad.loadRowsH recs hdrArg wt wl limit
+      else Gen.C20Load.loadDelimitedRows recs hdrArg wt wl limit
     pure (exJ (fun (h, rows, title, legend) =>
-      .obj [("header", .arr (h.map fun f => .str (String.ofList f))), ("rows", rowsToJ rows),
+      .obj [("header", match h with | none => .null | some h => .arr (h.map fun f => .str (String.ofList f))),
+            ("rows", rowsToJ rows),
             ("title", .str (String.ofList title)), ("legend", .str (String.ofList legend))]) r)
   | "op" => do
     let t ← tableOfJ (← j.get "t")
